@@ -6,13 +6,13 @@
    (dump_sub) and both execution paths (stop = true: sequential; stop = false: executor).
    "returns instead of hanging" is NOT a theorem: it is checked by timeout on every explored case (partial). *)
 From Verif Require Import Base.Prelude.
-From Verif Require Model.Pipe Model.Failing Proofs.FailingFacts.
+From Verif Require Model.Pipe Model.Failing Proofs.FailingFacts Proofs.FailingOnceFacts.
 From Verif Require Base.NdArr Model.MapSpec Model.MapRun Model.FailingMap
   Proofs.FailingMapFacts Proofs.FailingStoreFacts Proofs.FailingWitness.
 
 (* ================================================================== pipeline(...) / Pipeline.run *)
 Module PipeCalls.
-  Import Pipe Failing FailingFacts.
+  Import Pipe Failing FailingFacts FailingOnceFacts.
 
   (* error_surfaces + call_failure_once: if, in the evaluation order of the run (= its call log), the first
      raising invocation is c (every earlier invocation returned), then the call raises exactly that exception
@@ -40,12 +40,29 @@ Module PipeCalls.
   Proof. exact run_never_swallows. Qed.
   Print Assumptions C13_run_never_swallows.
 
-  (* call_failure_once: the failing invocation occurs exactly once, as the last entry of the log *)
+  (* call_failure_once (invocations, no well-formedness needed): the failing invocation occurs exactly once, as
+     the last entry of the log *)
   Theorem C13_call_failure_once : forall ubody pick p o kw full e n lg,
     run_f ubody pick p o kw full = (FRaised e n, lg) ->
     exists lg1 c, lg = lg1 ++ [c] /\ ~ In c lg1 /\ ubody (fst c) (snd c) = Raised e.
   Proof. exact run_failure_once. Qed.
   Print Assumptions C13_call_failure_once.
+
+  (* every function of a well-formed pipeline (distinct names, acyclic) is entered at most once per call, also
+     when the call ends with a user exception (memoisation in all_results + the Kahn rank of the function graph) *)
+  Theorem C13_run_calls_once : forall (ubody : str -> alist -> Exn.outcome str) pick p o kw full,
+    wf_pipeline p -> NoDup (map fst (snd (Pipe.run (enc ubody) pick p o kw full))).
+  Proof. exact run_calls_once. Qed.
+  Print Assumptions C13_run_calls_once.
+
+  (* call_failure_once at the level of functions: the failing FUNCTION was entered exactly once, last *)
+  Theorem C13_call_failure_once_function : forall (ubody : str -> alist -> Exn.outcome str) pick p o kw full e n lg,
+    wf_pipeline p ->
+    run_f ubody pick p o kw full = (FRaised e n, lg) ->
+    exists lg1 c, lg = lg1 ++ [c] /\ ~ In (fst c) (map fst lg1) /\ ubody (fst c) (snd c) = Raised e
+                  /\ NoDup (map fst lg).
+  Proof. exact run_failure_function_once. Qed.
+  Print Assumptions C13_call_failure_once_function.
 
   (* reproduce_same: the snapshot exposed after the call names the failing invocation, and reproduce() raises the
      same exception (determinism of user code = `ubody` is a function) *)
